@@ -1,0 +1,39 @@
+//go:build verif
+
+package expand
+
+import (
+	"fmt"
+	"strings"
+
+	"mvdan.cc/sh/v3/syntax"
+)
+
+// VerifC33SliceElems drives the unexported Config.sliceElems (non-positional branch) for the
+// external verification harness: it parses `${a[@]:off:len}` with the given literal offset and
+// length (nil = absent) and applies the resulting slice to elems/indexes.
+func VerifC33SliceElems(elems []string, indexes []int, offset, length *int) ([]string, error) {
+	src := "${a[@]"
+	if offset != nil {
+		src += fmt.Sprintf(":(%d)", *offset)
+		if length != nil {
+			src += fmt.Sprintf(":(%d)", *length)
+		}
+	}
+	src += "}"
+	var pe *syntax.ParamExp
+	p := syntax.NewParser(syntax.Variant(syntax.LangBash))
+	if err := p.Words(strings.NewReader(src), func(w *syntax.Word) bool {
+		if len(w.Parts) == 1 {
+			pe, _ = w.Parts[0].(*syntax.ParamExp)
+		}
+		return true
+	}); err != nil {
+		return nil, err
+	}
+	if pe == nil || (offset != nil && pe.Slice == nil) {
+		return nil, fmt.Errorf("verif: could not build the slice expansion from %q", src)
+	}
+	cfg := prepareConfig(&Config{})
+	return cfg.sliceElems(pe, elems, indexes, false), nil
+}
